@@ -3,7 +3,7 @@
 import traceback2
 import itertools
 
-from kernel.type import TVar, TConst, TFun, BoolType
+from kernel.type import TVar, TConst, TFun, BoolType, TypeMatchException
 from kernel import term
 from kernel.term import Term, Var, Const, And, Implies, Not, Eq, Forall
 from kernel.thm import Thm
@@ -347,6 +347,42 @@ class Definition(Item):
                 raise ItemException(
                     "Definition %s: extra variables in rhs: %s" % (
                         self.name, ", ".join(v for v in rhs_vars - lhs_vars)))
+
+            # The arguments on the lhs should be variables
+            if not all(v.is_var() for v in args):
+                raise ItemException("Definition %s: arguments on lhs must be variables" % self.name)
+
+            # The constant being defined cannot appear on the rhs at an
+            # overlapping type (the definition would be recursive)
+            def overlap(T1, T2):
+                for S, T in ((T1, T2), (T2, T1)):
+                    try:
+                        S.convert_stvar().match(T)
+                        return True
+                    except TypeMatchException:
+                        pass
+                return False
+
+            for c in self.prop.rhs.get_consts():
+                if c.name == self.name and overlap(c.T, self.type):
+                    raise ItemException("Definition %s: constant appears on the rhs" % self.name)
+
+            # Every type variable on the rhs must appear in the type of the constant
+            def get_tvars(t):
+                if t.is_var() or t.is_const():
+                    return set(t.T.get_tvars())
+                elif t.is_comb():
+                    return get_tvars(t.fun) | get_tvars(t.arg)
+                elif t.is_abs():
+                    return set(t.var_T.get_tvars()) | get_tvars(t.body)
+                else:
+                    return set()
+
+            extra_tvars = get_tvars(self.prop.rhs) - set(self.type.get_tvars())
+            if extra_tvars:
+                raise ItemException(
+                    "Definition %s: extra type variables in rhs: %s" % (
+                        self.name, ", ".join(str(T) for T in extra_tvars)))
 
         except Exception as error:
             self.type = data['type']
